@@ -88,27 +88,6 @@ theorem import_rejects_version (b : Bytes) (h : beVal ((b.drop 4).take 2) ≠ cs
     · rw [if_pos h1]; exact ⟨_, rfl⟩
     · rw [if_neg h1, if_pos h]; exact ⟨_, rfl⟩
 
-theorem readVar_truncated (a : Bytes) (m : Nat) (ha : a.length < 65536) (hm : m < 2 + a.length) :
-    ∃ e, readVar ((varField a).take m) = .error e := by
-  unfold readVar
-  by_cases h2 : m < 2
-  · have : ((varField a).take m).length < 2 := by simp [List.length_take]; omega
-    rw [if_pos this]; exact ⟨_, rfl⟩
-  · have hl : ¬ ((varField a).take m).length < 2 := by
-      simp [List.length_take, varField, be16, beN]; omega
-    rw [if_neg hl]
-    have htake : ((varField a).take m).take 2 = be16 a.length := by
-      simp [varField, be16, beN, List.take_take]
-      have : min 2 m = 2 := by omega
-      simp [this, List.take]
-    have hv : beVal (be16 a.length) = a.length := by
-      simp only [be16, beN, beVal, List.length_cons, List.length_nil, UInt8.toNat_ofNat']
-      omega
-    simp only [htake, hv]
-    have : (((varField a).take m).drop 2).length < a.length := by
-      simp [List.length_drop, List.length_take, varField, be16, beN]; omega
-    rw [if_pos this]; exact ⟨_, rfl⟩
-
 /-! Non-vacuity (tests): a concrete exchange, export, import, continue. -/
 def ivS : IV := ⟨7, [1,2,3,4,5,6,7,8,9,10,11,12]⟩
 def ivP : IV := ⟨9, [12,11,10,9,8,7,6,5,4,3,2,1]⟩
@@ -129,76 +108,26 @@ example : ∃ e, (({} : Stream).setKey 5 ivS).exportFields (fun _ => []) = .erro
 /-! ### The blob as bytes, and the continuation after the hand-off -/
 
 theorem decode_encode (f : BlobFields) (wf : WfBlob f) : decodeBlob (encodeBlob f) = .ok f := by
-  obtain ⟨w1, w2, w3, w4, w5, w6, w7, w8, w9, w10, w11⟩ := wf
-  have lm := csMagic_len
-  have lv : (be16 csVersion).length = 2 := by simp [be16]
-  have lk : (beN 32 f.key).length = 32 := by simp
-  have le := ivBytes_len f.encIV w4
-  have ld := ivBytes_len f.decIV w6
-  have l4a : (be32 f.encCtr).length = 4 := by simp [be32]
-  have l4b : (be32 f.decCtr).length = 4 := by simp [be32]
-  -- right-nested form of the blob
-  have hb : encodeBlob f = csMagic ++ (be16 csVersion ++ ([UInt8.ofNat f.flags] ++ (beN 32 f.key ++ (ivBytes f.encIV ++
-      (ivBytes f.decIV ++ (be32 f.encCtr ++ (be32 f.decCtr ++ (varField f.fs ++ (varField f.fr ++ varField f.peer))))))))) := by
-    simp [encodeBlob, List.append_assoc]
-  have hlen : ¬ (encodeBlob f).length < csFixedLen := by
-    rw [hb]; simp only [List.length_append, lm, lv, lk, le, ld, l4a, l4b, List.length_cons, List.length_nil]
-    unfold csFixedLen stream.cryptoStateFixedLen; omega
-  unfold decodeBlob
-  rw [if_neg hlen]
-  have t4 : (encodeBlob f).take 4 = csMagic := by rw [hb]; exact List.take_left' lm
-  rw [if_neg (by rw [t4]; exact fun h => h rfl)]
-  have d4 : (encodeBlob f).drop 4 = be16 csVersion ++ ([UInt8.ofNat f.flags] ++ (beN 32 f.key ++ (ivBytes f.encIV ++
-      (ivBytes f.decIV ++ (be32 f.encCtr ++ (be32 f.decCtr ++ (varField f.fs ++ (varField f.fr ++ varField f.peer)))))))) := by
-    rw [hb]; exact List.drop_left' lm
-  have hv : beVal (((encodeBlob f).drop 4).take 2) = csVersion := by
-    rw [d4, List.take_left' lv]; exact beVal_be16 _ (by unfold csVersion stream.cryptoStateVersion; omega)
-  rw [if_neg (by rw [hv]; exact fun h => h rfl)]
-  have d6 : (encodeBlob f).drop 6 = [UInt8.ofNat f.flags] ++ (beN 32 f.key ++ (ivBytes f.encIV ++
-      (ivBytes f.decIV ++ (be32 f.encCtr ++ (be32 f.decCtr ++ (varField f.fs ++ (varField f.fr ++ varField f.peer))))))) := by
-    have : (encodeBlob f).drop 6 = ((encodeBlob f).drop 4).drop 2 := by rw [List.drop_drop]
-    rw [this, d4]; exact List.drop_left' lv
-  have d7 : (encodeBlob f).drop 7 = beN 32 f.key ++ (ivBytes f.encIV ++
-      (ivBytes f.decIV ++ (be32 f.encCtr ++ (be32 f.decCtr ++ (varField f.fs ++ (varField f.fr ++ varField f.peer)))))) := by
-    have : (encodeBlob f).drop 7 = ((encodeBlob f).drop 6).drop 1 := by rw [List.drop_drop]
-    rw [this, d6]; rfl
-  have d39 : (encodeBlob f).drop 39 = ivBytes f.encIV ++
-      (ivBytes f.decIV ++ (be32 f.encCtr ++ (be32 f.decCtr ++ (varField f.fs ++ (varField f.fr ++ varField f.peer))))) := by
-    have : (encodeBlob f).drop 39 = ((encodeBlob f).drop 7).drop 32 := by rw [List.drop_drop]
-    rw [this, d7]; exact List.drop_left' lk
-  have d55 : (encodeBlob f).drop 55 =
-      ivBytes f.decIV ++ (be32 f.encCtr ++ (be32 f.decCtr ++ (varField f.fs ++ (varField f.fr ++ varField f.peer)))) := by
-    have : (encodeBlob f).drop 55 = ((encodeBlob f).drop 39).drop 16 := by rw [List.drop_drop]
-    rw [this, d39]; exact List.drop_left' le
-  have d71 : (encodeBlob f).drop 71 =
-      be32 f.encCtr ++ (be32 f.decCtr ++ (varField f.fs ++ (varField f.fr ++ varField f.peer))) := by
-    have : (encodeBlob f).drop 71 = ((encodeBlob f).drop 55).drop 16 := by rw [List.drop_drop]
-    rw [this, d55]; exact List.drop_left' ld
-  have d75 : (encodeBlob f).drop 75 = be32 f.decCtr ++ (varField f.fs ++ (varField f.fr ++ varField f.peer)) := by
-    have : (encodeBlob f).drop 75 = ((encodeBlob f).drop 71).drop 4 := by rw [List.drop_drop]
-    rw [this, d71]; exact List.drop_left' l4a
-  have d79 : (encodeBlob f).drop 79 = varField f.fs ++ (varField f.fr ++ varField f.peer) := by
-    have : (encodeBlob f).drop 79 = ((encodeBlob f).drop 75).drop 4 := by rw [List.drop_drop]
-    rw [this, d75]; exact List.drop_left' l4b
-  simp only []
-  rw [d6, d7, d39, d55, d71, d75, d79]
-  rw [List.take_left' lk, List.take_left' le, List.take_left' ld, List.take_left' l4a, List.take_left' l4b]
-  rw [readVar_varField _ _ w9]
-  simp only []
-  rw [readVar_varField _ _ w10]
-  simp only []
-  have hp : readVar (varField f.peer) = .ok (f.peer, []) := by
-    have := readVar_varField f.peer [] w11
-    simpa using this
-  rw [hp]
-  simp only []
-  rw [beVal_beN32 _ w2, ivOfBytes_ivBytes _ w3 w4, ivOfBytes_ivBytes _ w5 w6, beVal_be32' _ w7, beVal_be32' _ w8]
-  have hfl : ((([UInt8.ofNat f.flags] ++ (beN 32 f.key ++ (ivBytes f.encIV ++ (ivBytes f.decIV ++ (be32 f.encCtr ++
-      (be32 f.decCtr ++ (varField f.fs ++ (varField f.fr ++ varField f.peer)))))))).take 1).headD 0).toNat = f.flags := by
-    simp only [List.singleton_append, List.take_succ_cons, List.take_zero, List.headD_cons]
-    simp [UInt8.toNat_ofNat']; omega
-  rw [hfl]
+  rw [encodeBlob_split, decode_fixed f wf, decodeTrailer_trailer f wf]
 
+/-- **import_rejects_truncated**: EVERY strict prefix of a well-formed blob is rejected — a
+    truncated hand-off is never mistaken for a complete one. -/
+theorem import_rejects_truncated (f : BlobFields) (wf : WfBlob f) (n : Nat) (hn : n < (encodeBlob f).length) :
+    ∃ e, importBlob ((encodeBlob f).take n) = .error e := by
+  have hfl := fixedPart_len f wf
+  unfold importBlob
+  by_cases h79 : n < 79
+  · have : ((encodeBlob f).take n).length < csFixedLen := by
+      rw [List.length_take]; unfold csFixedLen stream.cryptoStateFixedLen; omega
+    obtain ⟨e, he⟩ := import_rejects_short _ this
+    rw [he]; exact ⟨e, rfl⟩
+  · rw [encodeBlob_split] at hn ⊢
+    obtain ⟨m, rfl⟩ : ∃ m, n = (fixedPart f).length + m := ⟨n - 79, by omega⟩
+    rw [List.take_length_add_append, decode_fixed f wf]
+    have hm : m < (trailer f).length := by simp only [List.length_append] at hn; omega
+    obtain ⟨e, he⟩ := decodeTrailer_truncated f.fs f.fr f.peer wf.fs wf.fr wf.peer m hm
+    unfold trailer
+    rw [he]; exact ⟨e, rfl⟩
 
 /-- **blob_roundtrip**: parsing the bytes `ExportCryptoState` writes gives back exactly the fields
     that were written — for every key, IV pair, counter pair, flag byte, digests and peer address
